@@ -7,7 +7,8 @@ Representations (pandas / numpy objects by their positional meaning on nested li
 * `Arr3 α`      3-D numpy array  `X[i][j][t]`  (instance, column, time), rectangular
 * `Nested ν α`  nested DataFrame, column-major like pandas: list of `(name, column)`,
                 a column is the list of its cells (one per instance); a cell is a pd.Series,
-                a np.ndarray or a primitive.  Row index = RangeIndex, cell time index = RangeIndex.
+                a np.ndarray or a primitive.  Row index = RangeIndex, cell time index = RangeIndex;
+                the `name` attribute of a cell's Series is irrelevant to every converter.
 * `MI ν α`      multi-index DataFrame: level names, column names, rows `((instance, time), values)`
 * `Long ν α`    long table: names of the three id columns, rows `(instance, time, variable, value)`
 * `Tab2 α`      2-D table: optional column labels (none = numpy array), rows
@@ -327,11 +328,12 @@ def fromLongToNested {ν α} [DecidableEq ν] (ops : NameOps ν) (L : Long ν α
     else throw Err.unmodelled
   let (dims, table) ← pivot ops.lt rows
   let N ← fromMIToNested ⟨instArg, timeArg, dims, table⟩ (some instArg) false
-  let c := N.cols.length
-  let names ← match columnNames with
-    | none => pure (defaultNames ops c)
-    | some ns => if ns.length = c then pure ns else throw Err.value
-  pure ⟨names.zip (N.cols.map (·.2))⟩        -- X_nested.columns = names
+  -- pivot labelled the columns with the variables' identifiers: kept unless names are given
+  match columnNames with
+  | none => pure N
+  | some ns =>
+    if ns.length = N.cols.length then pure ⟨ns.zip (N.cols.map (·.2))⟩   -- X_nested.columns = names
+    else throw Err.value
 
 /-! ### 2-D tables -/
 
@@ -355,12 +357,9 @@ def fromNestedTo2d {ν α} (ops : NameOps ν) (N : Nested ν α) (returnNumpy : 
 /-- `from_3d_numpy_to_2d_array(X)` = `X.reshape(n, -1)` -/
 def from3dTo2d {α} (X : Arr3 α) : Tab2 α := ⟨none, X.map List.flatten⟩
 
-/-- `from_2d_array_to_nested(X, columns=…, cells_as_numpy=…)`.
-NOTE (code as it is): the `index=` keyword is passed to the cell container also when it is
-`np.array`, which does not accept it: `cells_as_numpy=True` always raises TypeError. -/
+/-- `from_2d_array_to_nested(X, columns=…, cells_as_numpy=…)`: one column, each row a cell -/
 def from2dToNested {ν α} (ops : NameOps ν) (T : Tab2 α) (columns : Option (List ν))
     (asNumpy : Bool) : Except Err (Nested ν α) := do
-  if asNumpy && !T.rows.isEmpty then throw Err.type
   let col := T.rows.map (fun r => mkCell asNumpy r)
   match columns with
   | none => pure ⟨[(ops.zero, col)]⟩
